@@ -2268,8 +2268,10 @@ def check_closure(prog: sf.SqlProgram, tier: str = 'quick') -> List[Result]:
         res += r
     # every writer statement must have been reached by the abstract execution
     reached = _REACHED
+    # a verdict of the kind "this row is never written" is only evidence when every writer statement was seen by the abstract execution
+    absence = any(x[0] == 'bad' and ('is not inserted' in str(x[2]) or 'only the self row' in str(x[2])) for x in res)
     for e, stn in writers:
-        if id(e.call) not in reached and not any(x[0] == 'bad' for x in res):
+        if id(e.call) not in reached and (absence or not any(x[0] == 'bad' for x in res)):
             raise AnalysisError(f'{m.rel}::{e.qual}: `{norm(sqltext(stn))[:70]}` writes {CLOSURE} but is not reached from a caller of {target.name}: not analysed')
     return res
 
